@@ -4,6 +4,16 @@ from harness import tla
 from harness.checks import treefam as F
 
 
+def _big_stack():
+    # sanitizer instrumentation multiplies the size of stack frames: give the deep-recursion cases a stack that lets the
+    # instrumented engine reach the same depths as the normal build (a real runaway recursion still overflows it)
+    import resource
+    try:
+        resource.setrlimit(resource.RLIMIT_STACK, (1 << 30, resource.RLIM_INFINITY))
+    except (ValueError, OSError):
+        pass
+
+
 def child_loop(run, label, argv_fn, asan, total_hint=None, timeout=1200):
     """run a driver in a child; on a crash / sanitizer abort attribute it to the announced case, record it, and resume after it"""
     wd = os.path.join(tla.WORK, f'{run.pid}-{label}-{"asan" if asan else "norm"}')
@@ -14,7 +24,8 @@ def child_loop(run, label, argv_fn, asan, total_hint=None, timeout=1200):
     for _ in range(60):
         cmd = ['/venv/bin/python', '-m', 'harness.drivers.d_mut'] + argv_fn(outp, prog, start)
         p = subprocess.run(cmd, cwd=os.path.dirname(os.path.dirname(os.path.dirname(os.path.abspath(__file__)))), env=run.pyenv(asan),
-                           stdout=subprocess.PIPE, stderr=subprocess.PIPE, text=True, timeout=timeout)
+                           stdout=subprocess.PIPE, stderr=subprocess.PIPE, text=True, timeout=timeout,
+                           preexec_fn=_big_stack if (asan and label == 'deep') else None)
         if p.returncode == 0:
             break
         last = open(prog).read().strip().splitlines()[-1] if os.path.exists(prog) and open(prog).read().strip() else '-1'
